@@ -2,9 +2,9 @@ use nom::{
     branch::alt,
     bytes::complete::{is_not, tag},
     character::complete::{
-        alpha1, alphanumeric1, char, i128, multispace0, multispace1, one_of, u64,
+        alpha1, alphanumeric1, char, i128, multispace0, multispace1, one_of, satisfy, u64,
     },
-    combinator::{cut, into, map, map_res, opt, peek, recognize, rest, success, value},
+    combinator::{cut, into, map, map_res, not, opt, peek, recognize, rest, success, value},
     multi::{many0, many1},
     sequence::{delimited, pair, preceded, terminated},
     Parser,
@@ -252,10 +252,14 @@ pub fn asn_tag(input: Input<'_>) -> ParserResult<'_, AsnTag> {
             ))))),
             skip_ws_and_comments(u64),
         )),
-        skip_ws_and_comments(opt(alt((
-            value(TaggingEnvironment::Explicit, tag(EXPLICIT)),
-            value(TaggingEnvironment::Implicit, tag(IMPLICIT)),
-        )))),
+        // the keyword is a word of its own: `[0] IMPLICITData` refers to a type called `IMPLICITData`
+        skip_ws_and_comments(opt(terminated(
+            alt((
+                value(TaggingEnvironment::Explicit, tag(EXPLICIT)),
+                value(TaggingEnvironment::Implicit, tag(IMPLICIT)),
+            )),
+            not(satisfy(|c| c.is_alphanumeric() || c == '-')),
+        ))),
     ))
     .parse(input)
 }
